@@ -14,11 +14,17 @@ def gen_cluster(rng):
             res = []
             for n in names:
                 if rng.random() < 0.8 or not res:
-                    res.append({"name": n, "quantity": rng.randint(1, 3)})
+                    q = rng.randint(1, 3)
+                    if rng.random() < 0.25 and q >= 2:
+                        # the same type as individually addressable units (explicit ids)
+                        for i in range(q):
+                            res.append({"name": "%s:%s%d" % (n, n.lower()[0], i), "quantity": 1})
+                    else:
+                        res.append({"name": n, "quantity": q})
             workers.append({"name": "W%d_%d" % (p, w), "resources": res})
         pools.append({"name": "P%d" % p, "workers": workers})
     # make sure every resource name exists somewhere
-    have = {r["name"] for p in pools for w in p["workers"] for r in w["resources"]}
+    have = {r["name"].split(":")[0] for p in pools for w in p["workers"] for r in w["resources"]}
     for n in names:
         if n not in have:
             pools[0]["workers"][0]["resources"].append({"name": n, "quantity": rng.randint(1, 3)})
@@ -29,11 +35,29 @@ def capacity(pools):
     caps = []
     for p in pools:
         for w in p["workers"]:
-            caps.append({r["name"]: r["quantity"] for r in w["resources"]})
+            c = {}
+            for r in w["resources"]:
+                n = r["name"].split(":")[0]
+                c[n] = c.get(n, 0) + r["quantity"]
+            caps.append(c)
     return caps
 
 
-def gen_profile(rng, name, names, caps, runtimes, force_fit=True):
+def unit_ids(pools):
+    """explicit unit ids per resource type, e.g. {'GPU': ['g0', 'g1']}"""
+    out = {}
+    for p in pools:
+        for w in p["workers"]:
+            for r in w["resources"]:
+                if ":" in r["name"]:
+                    n, i = r["name"].split(":")
+                    out.setdefault(n, [])
+                    if i not in out[n]:
+                        out[n].append(i)
+    return out
+
+
+def gen_profile(rng, name, names, caps, runtimes, force_fit=True, ids=None):
     strategies = []
     for _ in range(rng.choice([1, 1, 2, 3])):
         cap = rng.choice(caps)
@@ -42,7 +66,10 @@ def gen_profile(rng, name, names, caps, runtimes, force_fit=True):
         rng.shuffle(keys)
         for n in keys[:rng.randint(1, len(keys))]:
             hi = cap[n] if force_fit or rng.random() < 0.85 else cap[n] + 1
-            req["%s:any" % n] = rng.randint(1, max(1, hi))
+            if ids and n in ids and rng.random() < 0.35:
+                req["%s:%s" % (n, rng.choice(ids[n]))] = 1        # a specific unit (never mixed with `any` of its type)
+            else:
+                req["%s:any" % n] = rng.randint(1, max(1, hi))
         strategies.append({"batch_size": 1, "runtime": rng.choice(runtimes), "resource_requirements": req})
     return {"name": name, "execution_strategies": strategies}
 
@@ -89,6 +116,7 @@ def gen_shape(rng, shape):
 def gen_world(rng, policy=None, allow_zero_runtime=False, closed_loop=False, conditionals=True):
     pools, names = gen_cluster(rng)
     caps = capacity(pools)
+    ids = unit_ids(pools)
     runtimes = RUNTIMES if not allow_zero_runtime else [0] + RUNTIMES
     graphs = []
     profiles = []
@@ -98,7 +126,7 @@ def gen_world(rng, policy=None, allow_zero_runtime=False, closed_loop=False, con
         nodes = []
         for (n, children, attrs) in gen_shape(rng, shape):
             pname = "prof_G%d_%s" % (g, n)
-            profiles.append(gen_profile(rng, pname, names, caps, runtimes, force_fit=rng.random() < 0.9))
+            profiles.append(gen_profile(rng, pname, names, caps, runtimes, force_fit=rng.random() < 0.9, ids=ids))
             node = {"name": n, "work_profile": pname}
             if children:
                 node["children"] = children
@@ -156,6 +184,7 @@ def gen_fuzz_world(rng):
                  "retract": rng.random() < 0.5, "release_taskgraphs": rng.random() < 0.3,
                  "p_cancel": rng.choice([0.0, 0.03, 0.1]), "p_unplaced": rng.choice([0.05, 0.15, 0.4]),
                  "p_future": rng.choice([0.0, 0.4, 0.8])}
+    f["loop_timeout"] = min(f["loop_timeout"], rng.choice([300, 1000, 3000]))   # refused placements are retried every microsecond
     w["policy"] = "FUZZ"
     w["flags"]["scheduler"] = "EDF"         # unused: the harness substitutes its own policy
     return w
